@@ -73,6 +73,13 @@ def gen_cases(tier, seed):
                     for rat in (False, True):
                         cases.append(dict(shape=A.shape_desc([A.affine_kv(kv, a, s)], [p], rat, 3, 'coded', 'coded',
                                                              normalize_kv=norm), grid=True, affine=[a, s], base=[kv]))
+    # ---- the tall thin slice: degree up to 6, up to 12 (thorough 20) control points per direction over few knot vectors
+    from .. import util_knots as K
+    for d in K.tall_curve_shapes(tier) + K.tall_surface_shapes(tier):
+        cases.append(dict(shape=d, grid=True, tall=True))
+    for (p, kv) in A.tall_kvs(1, degrees=(1, 4), counts=(7,)):
+        cases.append(dict(shape=A.shape_desc([A.clamped_kv(1, [(0.5, 1)]), A.clamped_kv(2, []), kv], [1, 2, p], p == 1, 3, 'coded', 'coded'),
+                          grid=False, tall=True))
     # ---- surfaces
     degs = [1, 2, 3]
     for pu, pv in itertools.product(degs, degs):
